@@ -17,9 +17,9 @@ structure Node where
 /-- What the handler's events are on the wire / at the destination. -/
 def splitEvs (evs : List Ev) : List Sent × List String :=
   (evs.filterMap (fun e => match e with
-      | .ack p i => some ⟨p, "ack", i⟩
-      | .err p i => some ⟨p, "err", i⟩
-      | .close p i => some ⟨p, "close", i⟩
+      | .ack p i => some ⟨p, "ack", i, ""⟩
+      | .err p i => some ⟨p, "err", i, ""⟩
+      | .close p i => some ⟨p, "close", i, ""⟩
       | _ => none),
    evs.filterMap (fun e => match e with
       | .dst s => some s!"dst:{s}"
@@ -28,9 +28,9 @@ def splitEvs (evs : List Ev) : List Sent × List String :=
 
 /-- STREAM_DATA from `peer` with stream id `id`, payload sealed under the key of exit tunnel `serial`
     (a serial that belongs to no tunnel = undecryptable payload). -/
-def Node.data (n : Node) (peer id serial : Nat) : Node × List Sent × List String :=
+def Node.data (n : Node) (peer id serial : Nat) (payload : String := "") : Node × List Sent × List String :=
   match n.a.tcp.route peer id with
-  | some (q, j) => (n, [⟨q, "data", j⟩], [])
+  | some (q, j) => (n, [⟨q, "data", j, payload⟩], [])
   | none =>
     let (ex', evs) := n.ex.data id peer serial
     ({ n with ex := ex' }, splitEvs evs)
